@@ -6,7 +6,7 @@
    `key_ok t key` : t is one of the four FindType values; name lookups: key non-empty and not starting with '-';
                     alias lookups: key = "c" or "-c" (c <> 0, c <> '-').
    `matches c al t key` : the ids of the OPTIONS that match, by brute force over the option list (alias names count as names). *)
-Require Import V.Lib.Base V.Gen.Consts_C14 V.C14.Model V.C14.Spec V.C14.Proofs V.C14.Proofs2 V.C14.Proofs3 V.C14.Proofs4 V.C14.Proofs5.
+Require Import V.Lib.Base V.Gen.Consts_C14 V.C14.Model V.C14.Spec V.C14.Proofs V.C14.Proofs2 V.C14.Proofs3 V.C14.Proofs4 V.C14.Proofs5 V.C14.Proofs6 V.C14.Proofs7.
 Local Open Scope Z_scope.
 
 (* [lower_bound k, upper_bound (k . CHAR_MAX)) of a sorted index over bytes 1..126 = exactly the entries with prefix k *)
@@ -64,6 +64,58 @@ Theorem c14_getoption : forall c al t key allow, built c al -> domain c al -> ke
   ((2 <= length M)%nat -> exists S, get_option allow key t c = Ambiguous S /\ covers c al S M).
 Proof. intros c al t key allow Hb Hd Hk. exact (getoption_thm c al t key Hb Hd Hk allow). Qed.
 Print Assumptions c14_getoption.
+
+(* an ambiguous key is reported as ambiguous - with one and the same candidate list - by EVERY lookup, whatever error policy the caller
+   chose: find throws, tryFind returns end(), DefaultContext::getOption throws with allowUnregistered on as well as off *)
+Theorem c14_ambiguous_everywhere : forall c al t key, built c al -> domain c al -> key_ok t key ->
+  (2 <= length (matches c al t key))%nat ->
+  exists S, (2 <= length S)%nat /\ covers c al S (matches c al t key) /\
+    find key t c = Ambiguous S /\ try_find key t c = None /\
+    forall allow, get_option allow key t c = Ambiguous S.
+Proof. exact ambiguous_everywhere. Qed.
+Print Assumptions c14_ambiguous_everywhere.
+
+(* a name resolved by a parser (parseCommandLine / parseCommandArray / parseCommandString / parseCfgFile = entry 0..3; long spelling
+   --key=v / "key = v": find_name_or_prefix, short spelling -cv: find_alias): the unique match, Ambiguous iff several options match -
+   for every entry point and for allowUnregistered on and off; only "no option matches" depends on allowUnregistered *)
+Theorem c14_parser_lookup : forall c al key short allow entry, built c al -> domain c al ->
+  let t := if negb (short =? 0) && negb (entry mod 4 =? 3) then find_alias else find_name_or_prefix in
+  key_ok t key ->
+  forall f, parser_lookup key short allow entry c = Some f ->
+  let M := matches c al t key in
+  (M = [] -> f = if negb (allow =? 0) then NotFound else Unknown) /\
+  (forall i, M = [i] -> f = Found i) /\
+  ((2 <= length M)%nat -> exists S, f = Ambiguous S /\ (2 <= length S)%nat /\ covers c al S M).
+Proof. exact parser_lookup_thm. Qed.
+Print Assumptions c14_parser_lookup.
+
+(* SEVERAL names resolved within ONE parser run (one DefaultContext; token j = "--key=j" / "-cj" / config line "key = j"):
+   the lookups are independent - the run amounts to the results the single lookups give, collected (`collect`: the options found, numbered
+   by their token, up to the first lookup that throws; keys left alone under allowUnregistered contribute nothing) ... *)
+Theorem c14_parser_sequence_independent : forall toks allow entry c rs,
+  Forall2 (fun t r => parser_lookup (fst t) (snd t) allow entry c = Some r) toks rs ->
+  parser_seq toks allow entry c = Some (collect 1 rs).
+Proof. exact seq_independent. Qed.
+Print Assumptions c14_parser_sequence_independent.
+
+(* ... and each of these results is the one the property demands for ITS OWN key (`single_spec` = the conclusion of c14_parser_lookup:
+   the unique match / Ambiguous iff several / left alone or Unknown iff none), in its own lookup mode (`tok_mode`: alias lookup for the short
+   spelling, name-or-prefix otherwise) - for EVERY sequence of tokens: the same key string under different modes next to each other
+   ("-x" then "--x", "--x" then "-x"), repeated keys, any order *)
+Theorem c14_parser_sequence : forall c al toks allow entry, built c al -> domain c al ->
+  Forall (fun t => tok_spellable entry t = true /\ key_ok (tok_mode entry t) (fst t)) toks ->
+  exists rs, Forall2 (fun t f => single_spec c al allow (tok_mode entry t) (fst t) f) toks rs /\
+             parser_seq toks allow entry c = Some (collect 1 rs).
+Proof. exact seq_thm. Qed.
+Print Assumptions c14_parser_sequence.
+
+(* when every key of the run, judged alone, names exactly one option, the run returns exactly these options, token by token *)
+Theorem c14_parser_sequence_found : forall c al toks allow entry is, built c al -> domain c al ->
+  Forall (fun t => tok_spellable entry t = true /\ key_ok (tok_mode entry t) (fst t)) toks ->
+  Forall2 (fun t i => matches c al (tok_mode entry t) (fst t) = [i]) toks is ->
+  parser_seq toks allow entry c = Some (SOk (combine (seq 1 (length toks)) is)).
+Proof. exact seq_all_found. Qed.
+Print Assumptions c14_parser_sequence_found.
 
 (* duplicates: insertOption / addAlias / add(group) are refused exactly when a key is taken; a refused insertion or
    alias leaves index and options unchanged; an accepted one adds exactly its keys *)
@@ -131,6 +183,62 @@ Proof. vm_compute. split; reflexivity. Qed.
 Example ex_unknown : matches ex_ctx ex_al find_name [110;117] = [] /\ find [110;117] find_name ex_ctx = Unknown /\ try_find [110;117] find_name ex_ctx = None.
 Proof. vm_compute. repeat split; reflexivity. Qed.
 Example ex_alias : matches ex_ctx ex_al find_alias [120] = [1%nat] /\ find [120] find_alias ex_ctx = Found 1 /\ find [45;120] find_alias ex_ctx = Found 1.
+Proof. vm_compute. repeat split; reflexivity. Qed.
+(* "--nu=1" through every parser entry point, allowUnregistered on and off: ambiguous; "--nux=1": unknown / left alone; "-x1": option 1 *)
+Example ex_key_nop : key_ok find_name_or_prefix [110;117]. Proof. split; [tauto|]. split; simpl; discriminate. Qed.
+Example ex_parser_ambiguous :
+  forallb (fun entry => forallb (fun allow =>
+     match parser_lookup [110;117] 0 allow entry ex_ctx with
+     | Some (Ambiguous [(k1, 0%nat); (k2, 0%nat); (k3, 1%nat)]) => list_eqb k1 s_num && list_eqb k2 s_number && list_eqb k3 s_nut
+     | _ => false end) [0; 1]) [0; 1; 2; 3] = true /\
+  parser_lookup [110;117;120] 0 1 2 ex_ctx = Some NotFound /\ parser_lookup [110;117;120] 0 0 3 ex_ctx = Some Unknown /\
+  parser_lookup [120] 1 1 0 ex_ctx = Some (Found 1) /\ parser_lookup [110;32] 0 0 0 ex_ctx = None.
+Proof. vm_compute. repeat split; reflexivity. Qed.
+(* one parser run over a context in which the alias character x belongs to option 0 (foo,-x) while "x" is the unique prefix of option 1
+   (x-ray), v is the alias of option 2 (verbose,-v) AND the exact name of option 3 (v), q is the alias of option 4 (silent,-q) and the prefix
+   of nothing:  -x1 --x=2  /  --x=1 -x2  /  -v1 --v=2  /  -x1 --sil=2 --x=3 (control)  resolve every token as it resolves alone, through every
+   entry point;  -q1 --q=2  is UnknownOption, and with allowUnregistered --q=2 is left alone                                              *)
+Definition sq_ctx := fst (add_group [68] [mkOpt [102;111;111] 120; mkOpt [120;45;114;97;121] 0; mkOpt [118;101;114;98;111;115;101] 118;
+                                         mkOpt [118] 0; mkOpt [115;105;108;101;110;116] 113] empty_ctx).
+Example ex_seq_built : built sq_ctx [] /\ domain sq_ctx [].
+Proof.
+  split.
+  - apply b_group; [apply b_empty|]. repeat constructor; discriminate.
+  - unfold domain. replace (options sq_ctx) with [mkOpt [102;111;111] 120; mkOpt [120;45;114;97;121] 0; mkOpt [118;101;114;98;111;115;101] 118;
+                                         mkOpt [118] 0; mkOpt [115;105;108;101;110;116] 113] by (vm_compute; reflexivity).
+    unfold name_ok, alias_ok, DASH.
+    repeat (cbn [oname oalias fst hd]; match goal with
+    | |- Forall _ [] => apply Forall_nil
+    | |- Forall _ (_ :: _) => apply Forall_cons
+    | |- _ /\ _ => split
+    | |- _ \/ _ => first [left; reflexivity | right; split; [lia|discriminate]]
+    | |- _ <> _ => discriminate
+    | |- _ <= _ => lia
+    end).
+Qed.
+Example ex_seq_tokens_ok :
+  Forall (fun t => tok_spellable 2 t = true /\ key_ok (tok_mode 2 t) (fst t)) [([120], 1); ([120], 0)].
+Proof.
+  apply Forall_cons; [|apply Forall_cons; [|apply Forall_nil]]; (split; [vm_compute; reflexivity|]).
+  - split; [tauto|]. exists 120. repeat split; try discriminate. left. reflexivity.
+  - split; [tauto|]. split; cbn; discriminate.
+Qed.
+Example ex_seq_same_key :
+  forallb (fun entry =>
+    match parser_seq [([120], 1); ([120], 0)] 0 entry sq_ctx, parser_seq [([120], 0); ([120], 1)] 0 entry sq_ctx,
+          parser_seq [([118], 1); ([118], 0)] 1 entry sq_ctx, parser_seq [([120], 1); ([115;105;108], 0); ([120], 0)] 0 entry sq_ctx with
+    | Some (SOk [(1%nat, 0%nat); (2%nat, 1%nat)]), Some (SOk [(1%nat, 1%nat); (2%nat, 0%nat)]),
+      Some (SOk [(1%nat, 2%nat); (2%nat, 3%nat)]), Some (SOk [(1%nat, 0%nat); (2%nat, 4%nat); (3%nat, 1%nat)]) => true
+    | _, _, _, _ => false end) [0; 1; 2] = true /\
+  (* a config file has no short spelling: both lines are name-or-prefix lookups of "x" *)
+  parser_seq [([120], 1); ([120], 0)] 0 3 sq_ctx = Some (SOk [(1%nat, 1%nat); (2%nat, 1%nat)]) /\
+  parser_seq [([113], 1); ([113], 0)] 0 2 sq_ctx = Some (SErr Unknown) /\
+  parser_seq [([113], 1); ([113], 0)] 1 2 sq_ctx = Some (SOk [(1%nat, 4%nat)]) /\
+  parser_seq [([113], 0); ([113], 1)] 1 0 sq_ctx = Some (SOk [(2%nat, 4%nat)]) /\
+  parser_seq [([120], 1); ([120; 32], 0)] 0 0 sq_ctx = None /\
+  matches sq_ctx [] find_alias [120] = [0%nat] /\ matches sq_ctx [] find_name_or_prefix [120] = [1%nat] /\
+  matches sq_ctx [] find_alias [118] = [2%nat] /\ matches sq_ctx [] find_name_or_prefix [118] = [3%nat] /\
+  matches sq_ctx [] find_alias [113] = [4%nat] /\ matches sq_ctx [] find_name_or_prefix [113] = [].
 Proof. vm_compute. repeat split; reflexivity. Qed.
 (* duplicates: the name "nut", the alias 'x' and the alias name "num" are taken; the refused option leaves no "-h" key behind *)
 Example ex_dup : snd (add_group [72] [mkOpt s_nut 0] ex_ctx) = Some s_nut /\ snd (add_group [72] [mkOpt [97] 120] ex_ctx) = Some [97] /\
